@@ -190,8 +190,12 @@ func (st *msState) resolve(sym string, prev *msReqLog) string {
 	plPath := mediaPlaylistPath(ls.id)
 	open := ls.nextSegmentID
 	published := uint64(0)
-	if seg, ok := ls.nextSegment.(*muxerSegmentFMP4); ok && seg != nil {
-		published = uint64(len(seg.parts))
+	// (before the stream has content the writer creates the first segment without the muxer mutex - no handler looks at
+	// it then, and neither does the harness)
+	if ls.hasContent() {
+		if seg, ok := ls.nextSegment.(*muxerSegmentFMP4); ok && seg != nil {
+			published = uint64(len(seg.parts))
+		}
 	}
 	br := func(m uint64, p int64) string {
 		if p < 0 {
